@@ -39,7 +39,8 @@ def round_trace(run, lp):
     kh = {CLS[k]: num(v * 1e6) for k, v in run["kcals_per_head"].items()}  # bn kcal per million head
     ev = [dict(ev="Begin", kind="humans" if lp["kind"] == "H" else "animals", round=lp["round"], n=n, kcalHead=kh,
                wDistMeat=num(inp["waste_dist_meat"]), wDistMilk=num(inp["waste_dist_milk"]), wRetail=num(inp["waste_retail"]),
-               milkYield=num(inp["milk_yield"]), addMilk=inp["add_milk"], addMeat=lp["consts"]["add"]["meat"])]
+               milkYield=num(inp["milk_yield"]), addMilk=inp["add_milk"], addMeat=lp["consts"]["add"]["meat"],
+               kg=dict(chicken=num(inp["kg_meat_per_chicken"]), pig=num(inp["kg_meat_per_pig"]), large=num(inp["kg_meat_per_large_animal"])))]
     feed_charged = s["feed"] if lp["kind"] == "H" else s["max_feed"]
     for m in range(n):
         sl = [dict(**{"class": meat_class(sp["type"], sp["size"])}, head=num(sp["slaughter"][m], 1e6)) for sp in h["species"]]
